@@ -277,7 +277,7 @@ class Interp(EngineBase):
             return self.dict_get(base, idx, node)
         if isinstance(base, ListObj):
             if isinstance(idx, int) and idx in (0, -1):
-                return self.list_pick(base, node, f"list[{idx}] on empty list")
+                return self.list_pick(base, node, f"list[{idx}] on empty list", want_last=(idx == -1))
             it = self.num(idx)
             self.bag_facts(base)
             self.check_or_raise(z3.And(it >= -z3.ToReal(base.n), it < z3.ToReal(base.n)), 'IndexError', node, 'list[i]')
